@@ -189,6 +189,13 @@ def selectExn (es : List Exn) : Option Exn :=
     | some e => some e
     | none => es.getLast?
 
+/-- where the call under test sits: in the test method, or in the test's own `setUp` — after its upcall to the base
+`setUp`, or before it (`setUpEarly`: the stage does its own work first and upcalls last) — then the existing details,
+the cleanups and `after` belong to `setUp` too, and the test method itself does nothing.  The position relative to the
+upcall makes no difference to what the run has to report (the base `setUp` only records that it was called). -/
+inductive Place | body | setUp | setUpEarly
+deriving DecidableEq, Repr
+
 structure AssertIn where
   api : Api
   existing : List Name               -- details the test already has
@@ -196,6 +203,7 @@ structure AssertIn where
   after : Act := .ret                -- what the test body does after the call (if the call returned)
   tearDown : Act := .ret
   cleanups : List Act := []          -- cleanups registered (in this order) at the start of the body; they run last-in first-out
+  place : Place := .body             -- the stage the call (with `existing`, `cleanups`, `after`) sits in
 deriving Repr
 
 structure AssertOut where
@@ -212,10 +220,17 @@ def somesExn : List (Option Exn) → List Exn
   | none :: r => somesExn r
   | some e :: r => e :: somesExn r
 
-/-- the exceptions of the run in the order `_run_core` collects them: body, tearDown, cleanups (LIFO) and —
-last, whenever `force_failure` is set — the `AssertionError("Forced Test Failure")` -/
+/-- `setUp` raised (the call sits there and raised, or what `setUp` went on to do raised): `_run_core` then runs
+neither the test method nor `tearDown`, only the cleanups -/
+def setUpGaveUp (callRaised : Bool) (i : AssertIn) : Bool :=
+  i.place != .body && (callRaised || i.after != .ret)
+
+/-- the exceptions of the run in the order `_run_core` collects them: the stage with the call (body or setUp),
+tearDown (unless setUp gave up), cleanups (LIFO) and — last, whenever `force_failure` is set, also when setUp gave
+up — the `AssertionError("Forced Test Failure")` -/
 def stageExns (callRaised : Bool) (i : AssertIn) : List Exn :=
-  somesExn ((if callRaised then some Exn.fail else i.after.exn) :: i.tearDown.exn :: i.cleanups.reverse.map Act.exn)
+  somesExn ((if callRaised then some Exn.fail else i.after.exn) ::
+    (if setUpGaveUp callRaised i then [] else [i.tearDown.exn]) ++ i.cleanups.reverse.map Act.exn)
 def runExns (callRaised forceFailure : Bool) (i : AssertIn) : List Exn :=
   stageExns callRaised i ++ (if forceFailure then [Exn.fail] else [])
 
